@@ -1,3 +1,5 @@
+pub mod c02;
+pub mod c03;
 pub mod c05;
 pub mod c06;
 pub mod c08;
@@ -14,6 +16,10 @@ use crate::runner::Prop;
 
 pub fn sweep_prop(id: &str) -> Option<Box<dyn Prop>> {
     Some(match id {
+        "C02" => Box::new(c02::C02::new()),
+        "C03" => Box::new(c03::C03::new()),
+        "C04" => Box::new(c03::C04::new()),
+        "C17" => Box::new(c03::C17::new()),
         "C05" => Box::new(c05::C05::new()),
         "C06" => Box::new(c06::C06::new()),
         "C08" => Box::new(c08::C08::new()),
